@@ -5,6 +5,10 @@ pm_c27: model driver for C27.  One op per line:
                               Serializer.Unmarshal into a fresh value; output = tree of the result
                               (or panic:<site> / err:decode).  spec = tree of the value itself
                               (canonical form with the allowed identifications).
+  bc  <Type> <tree tokens>    the same value through the broadcast framing: Server.SendSync prepends the type
+                              byte of getMessageType, the receiver builds the message with getMessage;
+                              output as for rt, `panic:decode` when a table has no entry, `type-confusion:A->B`
+                              when the tables disagree.  spec = rt spec for every type receiveMessage handles.
   dec <Type> <tree tokens>    the tree describes a value of the protobuf-side message type of <Type>
                               (any Type numbers, empty lists, missing sub-messages); output = tree of
                               Serializer.Unmarshal of its wire form, or err:decode.  Model only.
@@ -15,6 +19,13 @@ import PV.Common.Proto
 import PV.C27.Gen
 open PV.Proto PV.C27
 
+/-- The deviation tag: a recorded finding only when the model output is exactly what the theorems
+(`canon true`) say the codec returns; anything else is unexplained. -/
+def tagOf (name m known : String) : String :=
+  if m = known then
+    (if name = "QueryResponse" then "rowidentifiers-pointer" else "schema-index-options-dropped")
+  else "unexplained"
+
 def step (_u : Unit) (ws : List String) : Unit × Ans :=
   let bad := ((), ans "bad-op")
   match ws with
@@ -22,9 +33,23 @@ def step (_u : Unit) (ws : List String) : Unit × Ans :=
     match Tree.parse toks with
     | some t =>
       match roundTrip name t with
-      | some (m, s) =>
-        let tag := if name = "QueryResponse" then "rowidentifiers-pointer" else "schema-index-options-dropped"
-        ((), ans2 m s tag)
+      | some (m, s, k) => ((), ans2 m s (tagOf name m k))
+      | none => bad
+    | none => bad
+  | "bc" :: name :: toks =>
+    -- broadcast framing: type byte from getMessageType, message from getMessage on the receiving side
+    match Tree.parse toks with
+    | some t =>
+      match roundTrip name t with
+      | some (m, s, k) =>
+        let arrives : Option String := do
+          let c ← (getMessageTypePairs.find? (fun p => p.2 = name)).map (·.1)
+          (getMessagePairs.find? (fun p => p.1 = c)).map (·.2)
+        let model := match arrives with
+          | none => "panic:decode"
+          | some n2 => if n2 = name then m else "type-confusion:" ++ name ++ "->" ++ n2
+        let spec := if receiveMessageTypes.contains name then s else model
+        ((), ans2 model spec (if model = m then tagOf name m k else "broadcast-type-table"))
       | none => bad
     | none => bad
   | "dec" :: name :: toks =>
